@@ -71,6 +71,33 @@ fn main() {
         }
         i += 1;
     }
+    // The checks must not depend on where they are started from: every path that comes from the
+    // environment is made absolute, then the process moves to a directory that any user can
+    // search (some checks re-execute themselves as an unprivileged user, and generated walk bases
+    // are also spelled relative to the working directory).
+    let here = std::env::current_dir().unwrap_or_else(|_| std::path::PathBuf::from("/"));
+    let absolute = |p: &str| -> String {
+        let pb = std::path::PathBuf::from(p);
+        if pb.is_absolute() { p.to_string() } else { here.join(pb).to_string_lossy().to_string() }
+    };
+    if let Ok(r) = std::env::var("VERIF_ROOT") {
+        std::env::set_var("VERIF_ROOT", absolute(&r));
+    }
+    if let Ok(t) = std::env::var("TMPDIR") {
+        if !t.is_empty() {
+            std::env::set_var("TMPDIR", absolute(&t));
+        }
+    }
+    let replay = replay.map(|r| absolute(&r));
+    for d in ["/var", "/usr", "/"] {
+        let ok = std::fs::metadata(d).map(|m| {
+            use std::os::unix::fs::PermissionsExt;
+            m.is_dir() && m.permissions().mode() & 0o005 == 0o005
+        });
+        if ok.unwrap_or(false) && std::env::set_current_dir(d).is_ok() {
+            break;
+        }
+    }
     engine::install_quiet_panic_hook();
     let code = props::dispatch(&id, tier, seed, replay.as_deref());
     std::process::exit(code);
